@@ -13,3 +13,6 @@ import MJ.Props.C15
 #print axioms MJ.C15.clone_isolated
 #print axioms MJ.C15.clone_starts_equal
 #print axioms MJ.C15.world_step_refines
+#print axioms MJ.C15.foreign_macro_rejected
+#print axioms MJ.C15.own_macro_accepted
+#print axioms MJ.C15.per_thread_counter_collides
